@@ -70,6 +70,30 @@ def ints(s):
     return [int(x) for x in s.split(",") if x != ""]
 
 
+def parse_ro(v):
+    """read-out of a box: [xc, yc, angle or None, aspect, height] (floats), or 'X' when the conversion failed"""
+    if v.startswith("X"):
+        return "X"
+    f = v.split(",")
+    return [None if x == "N" else unbits([int(x)])[0] for x in f]
+
+
+def expected_readout(m):
+    """TryFrom<KalmanState> for Universal2DBox: (mean[0], mean[1], None iff mean[2] == 0 else Some(mean[2]), mean[3], mean[4])"""
+    return [m[0], m[1], (None if m[2] == 0.0 else m[2]), m[3], m[4]]
+
+
+def readout_differs(ro, m):
+    if ro == "X" or ro is None:
+        return "the conversion failed"
+    exp = expected_readout(m)
+    names = ["xc", "yc", "angle", "aspect", "height"]
+    for i in range(5):
+        if (ro[i] is None) != (exp[i] is None) or (ro[i] is not None and not ro[i] == exp[i]):
+            return "%s read out as %r, the mean of the filter has %r" % (names[i], ro[i], exp[i])
+    return None
+
+
 def parse_ops(v):
     ops = []
     for o in v.split(";"):
@@ -121,6 +145,8 @@ def parse_output(out):
                 if k == "dist":
                     rec["distb"] = None if v == "X" else int(v)
                     rec["dist"] = None if v == "X" else unbits([int(v)])[0]
+                elif k == "ro":
+                    rec["ro"] = parse_ro(v)
                 else:
                     b = ints(v)
                     rec[k + "b"] = b
@@ -391,6 +417,11 @@ def oracle_track(tr):
                     offstruct += 1
             if bad:
                 break
+        # the reported mean (the public read-out of the state) is the mean of the filter; the angle is None iff it is 0
+        if ty == "box" and "ro" in st:
+            d = readout_differs(st["ro"], m)
+            if d is not None:
+                fails.append((k, "readout-differs-from-mean", "Universal2DBox::try_from(state): " + d))
         if not is_spd(P):
             fails.append((k, "cov-not-spd", "the covariance is not positive definite (Cholesky of the full matrix fails)"))
         # distance = squared Mahalanobis distance of the probe from the projected state
@@ -668,6 +699,12 @@ def parse_mp(out):
                 elif k == "got" and v.startswith("X"):
                     r["gotb"] = None
                     r["got_err"] = v
+                elif k == "got":
+                    r["gotb"] = v
+                    r["got"] = parse_ro(v)
+                elif k == "refraw":
+                    r["refrawb"] = ints(v)
+                    r["ref"] = expected_readout(unbits(r["refrawb"]))
                 else:
                     r[k + "b"] = ints(v)
                     r[k] = unbits(r[k + "b"])
@@ -687,7 +724,7 @@ def mp_failures(recs):
             else:
                 unassoc += 1
             continue
-        if any(not (g == e) for g, e in zip(r["got"], r["ref"])):
+        if any((g is None) != (e is None) or (g is not None and not (g == e)) for g, e in zip(r["got"], r["ref"])):
             bad.append((r, "differs"))
     return bad, unassoc
 
@@ -710,7 +747,7 @@ def shrink_mp(spec, r):
         _, recs = parse_mp(out)
         bad, _ = mp_failures(recs)
         return bad[0] if bad else None
-    cands = []
+    cands = ["mpspec " + mp_trunc(cfgs[j], r["frame"] + 1)]      # the configuration alone (not a weights problem then)
     for i in list(range(j)):
         for fr in (2, 3, r["frame"] + 1):
             cands.append("mpspec " + mp_trunc(cfgs[i], 1) + "/" + mp_trunc(cfgs[j], fr))
@@ -911,7 +948,9 @@ def run(chk):
                         "original_sequence": spec[:1500]})
         rep["sequence_in_one_process"] = mp_describe(rep["mpspec"])
         rep["replay_cmd"] = "./check C07 --replay <this file>"
-        violations.append(("C07:make-prediction-weights",
+        got, own = rep.get("returned") or [], rep.get("own_filter") or []
+        only_angle = (len(got) == 5 and len(own) == 5 and all(got[i] == own[i] for i in (0, 1, 3, 4)))
+        violations.append(("C07:make-prediction-readout" if only_angle else "C07:make-prediction-weights",
                            "make_prediction (%s, weights %r, %r) %s at frame %d: returned %r, the box filter built with these weights gives %r"
                            % (rep["tracker"], rep["weights"][0], rep["weights"][1], "panicked" if why == "panicked" else "differs",
                               rep["frame"], rep["returned"], rep["own_filter"]), rep))
@@ -989,6 +1028,7 @@ def run(chk):
                             "frames_compared_bitwise": len(mp_recs) - mp_unassoc, "not_one_track": mp_unassoc,
                             "failures": len(mp_bad),
                             "first_weights_are_defaults_in_runs": sum(1 for sp in mp_specs if mp_cfgs(sp)[0].split(":")[1:3] == ["1028443341", "1003277517"])},
+        "box_states_with_negative_angle": sum(1 for t in tracks if t["ty"] == "box" for st in t["states"] if st["mean"][2] < 0),
         "deep_shrink_streams": sum(1 for t in trajs.values() if t.get("kind") == "deep-shrink"),
         "tolerances": {"whole_run_mean": TOL_MEAN, "whole_run_cov": TOL_COV, "exact_short_run_mean": TOLQ_MEAN,
                        "exact_short_run_cov": TOLQ_COV, "one_step": "%g * 2^-24 * sum of magnitudes" % ULPS},
@@ -1070,7 +1110,7 @@ def mp_model_stage(mp_specs, mp_recs, stats, wr, disagreements):
             sc = mean_scales(tr, mm)
             stats["make_prediction_frames_vs_model"] += 1
             for i in range(5):
-                ratio = abs(r["got"][i] - mm[i]) / (TOL_MEAN * sc[i])
+                ratio = abs((r["got"][i] if r["got"][i] is not None else 0.0) - mm[i]) / (TOL_MEAN * sc[i])
                 wr["mp_mean"] = max(wr.get("mp_mean", 0.0), ratio)
                 if not ratio <= 1.0:
                     disagreements.append({"what": "make_prediction (%s, weights %r, %r) frame %d entry %d: returned %r, model %r"
@@ -1192,6 +1232,48 @@ def model_stage(chk, tracks, cost_by, stats, wr, disagreements):
                         bad = "cov[%d][%d]: implementation %r, exact model step of the previous state %r" % (i, j, st["cov"][i * N + j], mc[i * N + j])
             if bad is not None:
                 disagreements.append({"what": "one exact model step at step %d: %s" % (k, bad), "spec": single_spec(tr, nops=k), "tid": tr["tid"]})
+    # (c') the TRANSLATED read-out (gen/ScalarKalmanBox.v: TryFrom<KalmanState> for Universal2DBox, regenerated from the
+    # source on every run) applied to the implementation's own mean, vs the implementation's read-out, exactly
+    exprs, meta = [], []
+    for ti, tr in enumerate(tracks):
+        if tr["ty"] != "box":
+            continue
+        ks = set(tr["covsteps"][::4]) | {0, len(tr["states"]) - 1}
+        # always include a state with a negative, a positive and a zero angle if the track has one
+        for pred in (lambda a: a < 0, lambda a: a > 0, lambda a: a == 0):
+            for k, st in enumerate(tr["states"]):
+                if pred(st["mean"][2]):
+                    ks.add(k)
+                    break
+        for k in sorted(ks):
+            st = tr["states"][k]
+            if "ro" not in st or not finite(st["mean"]):
+                continue
+            exprs.append("ro_out %s" % ql(st["mean"]))
+            meta.append((ti, k))
+    if exprs:
+        pre = PREAMBLE + "From SimilariGen Require Import Scalar ScalarKalmanBox.\n" + \
+            "Definition ro_out (m : list Q) : list (Z * Z) := match kalman_state_to_ubox Qops m with None => [] | Some u => " \
+            "[qzz (Universal2DBox_xc Qops u); qzz (Universal2DBox_yc Qops u); " \
+            "match Universal2DBox_angle Qops u with None => (0, 0)%Z | Some a => qzz a end; " \
+            "qzz (Universal2DBox_aspect Qops u); qzz (Universal2DBox_height Qops u)] end.\n"
+        vals = vlib.coq_eval(pre, exprs, shard_size=max(1, len(exprs) // 16 + 1), tag="c07ro")
+        stats["readouts_vs_translated_conversion"] = 0
+        stats["readouts_negative_angle"] = 0
+        for (ti, k), v in zip(meta, vals):
+            tr = tracks[ti]
+            st = tr["states"][k]
+            ps = pairs_of(v)
+            model = None if len(ps) != 5 else [None if (i == 2 and p[1] == 0) else qval(p) for i, p in enumerate(ps)]
+            ro = st["ro"]
+            stats["readouts_vs_translated_conversion"] += 1
+            if st["mean"][2] < 0:
+                stats["readouts_negative_angle"] += 1
+            same = (model is not None and ro != "X"
+                    and all((a is None) == (b is None) and (a is None or a == b) for a, b in zip(ro, model)))
+            if not same:
+                disagreements.append({"what": "read-out at step %d: implementation %r, translated conversion of the same mean %r" % (k, ro, model),
+                                      "spec": single_spec(tr, nops=k), "tid": tr["tid"]})
     # (d) cost: the model's functions, exact, on every probe
     probes = sorted({db for (ty, db) in cost_by})
     exprs = []
